@@ -39,6 +39,7 @@ try:
         print(c,'exit',rc,'violations',len(viol),(summ[0][:300] if summ else ''))
 finally:
     sh("git -C /repo checkout -- .")
+    sh("git -C /repo clean -fdq compiler docs")
     sh("rm -f /verif/replays/*.json")
     print('restored /repo:',sh("git -C /repo status --porcelain")[1].strip() or 'clean')
 d='/verif/seeded/'+name
